@@ -224,7 +224,7 @@ class Validator(SchemaVisitor[ValidationResult]):
             for letter in value:
                 if letter not in alphabet:
                     return result.add_error(
-                        AlphabetValidationError(PathHolder(), value, schema.props.alphabet))
+                        AlphabetValidationError(path, value, schema.props.alphabet))
 
         return result
 
